@@ -26,6 +26,17 @@ spec/C04/Sb2Config.tla    the CONFIGURATION PATH (BootImageV21.load_from_config 
                           command; lemmas Encodable / MemVisible / SameMemory / BlobNeutral; CONFIGURATION LANE: every case is built through
                           load_from_config in every run and decided by the ROM automaton + Matches like a file of the class path
 
+spec/C04/Sb2Time.tla     the header TIME STAMP: what is supplied is a calendar value (naive, or aware with a UTC offset), the header carries the
+                          supplied INSTANT in whole seconds since 2000-01-01 UTC (limb arithmetic, HeaderCarries used by the trace form)
+spec/C04/Sb2TimeMC.tla   MC + GEN of the time-stamp case space: form x UTC offset (whole / half / quarter hours, east / west, +-23:59) x wall-clock
+                          digits (first seconds of the epoch, leap day, 2^31 / 2^32 seconds since 1970 / 2000, far future) x microseconds x local
+                          zone of the building process; lemmas LimbsExact / SameInstant / ZoneFree / OffsetMatters / NextSecond; TIME LANE: a file
+                          is built for EVERY emitted case in every run
+CORRUPTION CLASSES of the tamper lane: one flipped bit per field class, a forged command with a repaired checksum, a wrong KEK, and TRUNCATION /
+EXTENSION (Sb2RomMC: tamper kinds cut / stream / ext; Sb2Rom!BoundsOf = the structural boundaries of a layout).  CUT LANE: fixed small files of
+every version x 1..3 sections are cut at EVERY structural boundary (the trace form checks that no boundary was left out: CutsOk) and inside the
+parts, and extended; the automaton must refuse each variant, parse() must raise or return the reference content.
+
 Python only drives SPSDK's public classes, runs the executor, projects parse() results and hands traces to TLC.
 """
 import hashlib
@@ -529,6 +540,52 @@ def cfg_files(cases, r, first_idx):
     return out
 
 
+def tsc_of(g):
+    """The time stamp as supplied, in the vocabulary of Sb2Time: a case of the time lane, else the naive value the other lanes hand over
+    (g["ts"] seconds after 2000-01-01, digits read in the UTC zone of the run)."""
+    if g.get("tsc"):
+        return {k: g["tsc"][k] for k in ("form", "off", "days", "sod", "us", "zone")}
+    return {"form": "naive", "off": 0, "days": g["ts"] // 86400, "sod": g["ts"] % 86400, "us": 0, "zone": 0}
+
+
+def supplied_datetime(g):
+    """The datetime object handed to SBV2xAdvancedParams."""
+    from datetime import datetime, timedelta, timezone
+
+    c = g.get("tsc")
+    if not c:
+        return datetime.fromtimestamp(EPOCH2000 + g["ts"])
+    wall = datetime(2000, 1, 1) + timedelta(days=c["days"], seconds=c["sod"], microseconds=c["us"])
+    return wall.replace(tzinfo=timezone(timedelta(minutes=c["off"]))) if c["form"] == "aware" else wall
+
+
+def off_name(m):
+    return f"utc{'+' if m >= 0 else '-'}{abs(m) // 60:02d}:{abs(m) % 60:02d}"
+
+
+def time_label(c):
+    """Name of a time-stamp case for finding keys: form, offset, whether microseconds / another local zone are involved."""
+    return (c["form"] + (f"/{off_name(c['off'])}" if c["form"] == "aware" else "") + ("/us" if c["us"] else "")
+            + (f"/local={off_name(c['zone'])}" if c["zone"] else ""))
+
+
+class local_zone:
+    """The local zone of the building process for the duration of one job (fixed offset, POSIX TZ string: the sign is inverted there)."""
+
+    def __init__(self, minutes):
+        self.m = minutes
+
+    def __enter__(self):
+        if self.m:
+            os.environ["TZ"] = f"VRF{'-' if self.m > 0 else '+'}{abs(self.m) // 60:02d}:{abs(self.m) % 60:02d}"
+            time.tzset()
+
+    def __exit__(self, *a):
+        if self.m:
+            os.environ["TZ"] = "UTC"
+            time.tzset()
+
+
 def given_record(g):
     """The builder input in the vocabulary of Sb2RomTrace (type-stable, all numbers < 2^31)."""
     chain = g["chain"]
@@ -539,7 +596,7 @@ def given_record(g):
     flags = {"20u": 4, "20s": 8}.get(g["ver"], 0x8008 if g["sha"] else 0x0008)
     return {
         "ver": 1 if g["ver"] == "21" else 0, "flags": flags, "pv": g["pv"], "cv": g["cv"], "build": limbs(g["build"]),
-        "ts": [g["ts"] >> 16, g["ts"] & 0xFFFF], "nonceCtr": limbs(int.from_bytes(bytes.fromhex(g["nonce"])[12:], "little")), "nonce": g["nonce"],
+        "tsc": tsc_of(g), "nonceCtr": limbs(int.from_bytes(bytes.fromhex(g["nonce"])[12:], "little")), "nonce": g["nonce"],
         "keys": hashlib.sha256(bytes.fromhex(g["dek"]) + bytes.fromhex(g["mac"])).hexdigest()[:32],
         "sigLen": CHAIN_TAB[chain][2] if chain != "none" else 0, "chain": CHAIN_TAB[chain][0] if chain != "none" else 0,
         "rootIdx": g["root_idx"], "rkth": rkth,
@@ -625,11 +682,9 @@ class Spsdk:
 
     def make_image(self, g):
         """Builder input -> live image object, through the public classes only."""
-        from datetime import datetime
-
         sections = [self.make_section(s) for s in g["secs"]]
         adv = self.Adv(dek=bytes.fromhex(g["dek"]), mac=bytes.fromhex(g["mac"]), nonce=bytes.fromhex(g["nonce"]),
-                       timestamp=datetime.fromtimestamp(EPOCH2000 + g["ts"]), padding=bytes.fromhex(g["hdr_pad"]) if g["hdr_pad"] else None)
+                       timestamp=supplied_datetime(g), padding=bytes.fromhex(g["hdr_pad"]) if g["hdr_pad"] else None)
         ver = lambda v: ".".join(str(x) for x in v)  # noqa: E731
         kw = dict(product_version=ver(g["pv"]), component_version=ver(g["cv"]), build_number=g["build"], advanced_params=adv)
         kek = bytes.fromhex(g["kek"])
@@ -796,6 +851,72 @@ def regions(data, evs):
     return reg
 
 
+def bounds_of(evs):
+    """The structural boundaries (block positions) of a walked file - the driver's copy of Sb2Rom!BoundsOf.  TLC re-computes the set from the
+    events it consumed and checks that the driver cut at every one of them (clause CutsOk of the trace form)."""
+    b = set()
+    for e in evs:
+        k = e["ev"]
+        if k == "ParseHeader":
+            b |= {0, e["hdrBlocks"], e["kbBlock"], e["kbBlock"] + e["kbCount"], e["imageBlocks"]}
+        elif k == "CheckHeaderMac":
+            b |= {e["over"][0] // 16, e["over"][1] // 16}
+        elif k == "ParseCertBlock":
+            b |= {e["at"] // 16, e["endOff"] // 16}
+        elif k == "CheckSha":
+            b |= {e["at"] // 16, e["at"] // 16 + 2}
+        elif k == "VerifySignature":
+            b |= {e["sigAt"] // 16, (e["sigAt"] + e["sigLen"]) // 16}
+        elif k == "SectionTag":
+            b |= {e["at"], e["at"] + 1, e["at"] + 3}
+        elif k == "SectionHmac":
+            b |= {e["entryAt"], e["entryAt"] + 2, e["firstBlk"], e["firstBlk"] + e["nBlk"]}
+        elif k == "Cmd":
+            b |= {e["at"], e["at"] + 1, e["at"] + e["nBlk"]}
+        elif k == "SectionEnd":
+            b.add(e["next"])
+    return b
+
+
+def where_is(pos, reg, n):
+    """Name of a cut position for finding keys: behind which part of the file it lies, or inside which."""
+    if pos == 0:
+        return "empty-file"
+    behind = sorted(c for c, spans in reg.items() for lo, hi in spans if hi == pos)
+    if behind:
+        return "behind-" + behind[-1]
+    inside = sorted(c for c, spans in reg.items() for lo, hi in spans if lo < pos < hi)
+    return "inside-" + (inside[-1] if inside else "file")
+
+
+def length_variants(data, evs, reg, mode, r):
+    """Corruption classes TRUNCATION and EXTENSION of one walked file.  mode "all": a cut at every structural boundary and inside every part
+    (one block-aligned, one not); mode n: n boundaries, one aligned and one unaligned interior cut (seeded).  Appended: one byte, one block,
+    a whole copy of the last boot section (a replay), zeros.  -> (cut positions, [(class, where, bytes)])"""
+    n = len(data)
+    bnd = sorted(16 * b for b in bounds_of(evs) if 0 <= 16 * b < n)
+    spans = sorted({(lo, hi) for sp in reg.values() for lo, hi in sp if hi <= n})
+    inside = []
+    for lo, hi in spans:
+        if hi - lo > 16:
+            inside.append(lo + 16 * r.randrange(1, (hi - lo) // 16))
+        pos = r.randrange(lo + 1, hi)
+        inside.append(pos if pos % 16 else pos - 1)
+    if mode == "all":
+        cuts = sorted(set(bnd) | set(inside))
+    else:
+        al, un = [c for c in inside if c % 16 == 0], [c for c in inside if c % 16]
+        cuts = sorted(set(r.sample(bnd, min(mode, len(bnd))) + r.sample(al, min(1, len(al))) + r.sample(un, 1)))
+    out = [("truncated", where_is(c, reg, n), data[:c]) for c in cuts]
+    last = max((lo for lo, hi in reg.get("section_tag", [(0, 0)])), default=0)
+    tails = [("1-byte", bytes([r.getrandbits(8)])), ("1-block", bytes(r.getrandbits(8) for _ in range(16))), ("last-section-again", data[last:] if last else b"\0" * 32),
+             ("zeros", bytes(48))]
+    if mode != "all":
+        tails = r.sample(tails, 1)
+    out += [("extended", name, data + tail) for name, tail in tails]
+    return cuts, out
+
+
 def mk_trace(tid, kind, mode, ev, given=None, ref=None, **extra):
     t = {"id": tid, "kind": kind, "mode": mode, "given": given or {}, "ref": ref or {}, "ev": ev}
     t.update(extra)
@@ -804,7 +925,12 @@ def mk_trace(tid, kind, mode, ev, given=None, ref=None, **extra):
 
 def process(sp, job):
     """One file: build through SPSDK, walk with the executor, parse with SPSDK, tamper. Runs in a worker process."""
-    g, tamper_n, all_bits = job["g"], job["tamper"], job.get("all_bits")
+    with local_zone(job["g"]["tsc"]["zone"] if job["g"].get("tsc") else 0):
+        return _process(sp, job)
+
+
+def _process(sp, job):
+    g, tamper_n, all_bits, cut_mode = job["g"], job["tamper"], job.get("all_bits"), job.get("cuts")
     r = rng(PROP, "proc", g["idx"])
     idx, ver = g["idx"], g["ver"]
     out = {"idx": idx, "traces": [], "build": "ok", "len": 0}
@@ -820,11 +946,27 @@ def process(sp, job):
     out["sha"] = hashlib.sha256(data).hexdigest()[:16]
     kek = bytes.fromhex(g["kek"])
     evs = rom.run(data, kek, max_payload_log=job.get("max_payload", 4096))
-    out["traces"].append(mk_trace(f"rom-{idx}", "rom", "clean", with_markers(evs), given=given, idx=idx, ver=ver))
     walked = evs[-1]["ev"] == "Accept"
     ref = ref_of(evs) if walked else None
+    lv = []
+    if walked and cut_mode:
+        cuts, lv = length_variants(data, evs, regions(data, evs), cut_mode, rng(PROP, "cuts", idx))
+        if cut_mode == "all":      # the trace form checks that no structural boundary was left out
+            given = dict(given, cuts=cuts)
+    out["traces"].append(mk_trace(f"rom-{idx}", "rom", "clean", with_markers(evs), given=given, idx=idx, ver=ver))
     if ref is not None:
         out["traces"].append(mk_trace(f"parse-{idx}", "parse", "clean", observe_parse(sp, ver, data, kek), ref=ref, idx=idx, ver=ver))
+
+    def slim(pev):      # the reference content is only looked at when parse() returned something
+        return ref if pev[0]["outcome"] == "returned" else {}
+
+    # TRUNCATION / EXTENSION: the automaton alone must refuse the file (kind "anchor": no builder input is needed for that), parse() must raise
+    # or return the reference content
+    for c, where, d2 in lv:
+        tid = f"{idx}@{c}@{where}@{len(d2)}"
+        out["traces"].append(mk_trace("tamper-rom-" + tid, "anchor", "tamper", rom.run(d2, kek, max_payload_log=0), idx=idx, ver=ver, cls=f"{c}/{where}", of=f"rom-{idx}"))
+        pev = observe_parse(sp, ver, d2, kek)
+        out["traces"].append(mk_trace("tamper-parse-" + tid, "parse", "tamper", pev, ref=slim(pev), idx=idx, ver=ver, cls=f"{c}/{where}", of=f"parse-{idx}"))
     if walked and (tamper_n or all_bits):
         reg = regions(data, evs)
         if all_bits:
@@ -863,15 +1005,15 @@ def process(sp, job):
             out["traces"].append(mk_trace("tamper-rom-" + tid, "rom", "tamper", with_markers(rom.run(d2, kek)), given=given, idx=idx, ver=ver, cls=c,
                                           of=f"rom-{idx}"))
             if not all_bits or c == "forged_command" or r.random() < 0.05:
-                out["traces"].append(mk_trace("tamper-parse-" + tid, "parse", "tamper", observe_parse(sp, ver, d2, kek), ref=ref, idx=idx, ver=ver, cls=c,
-                                              of=f"parse-{idx}"))
+                pev = observe_parse(sp, ver, d2, kek)
+                out["traces"].append(mk_trace("tamper-parse-" + tid, "parse", "tamper", pev, ref=slim(pev), idx=idx, ver=ver, cls=c, of=f"parse-{idx}"))
         # wrong KEK: one flipped bit, and an unrelated key
         for name, k2 in (("bit", bytes([kek[0] ^ (1 << r.randrange(8))]) + kek[1:]), ("other", bytes(r.getrandbits(8) for _ in range(32)))):
             tid = f"{idx}@kek-{name}"
             out["traces"].append(mk_trace("wrongkek-rom-" + tid, "rom", "wrongkek", with_markers(rom.run(data, k2)), given=given, idx=idx, ver=ver, cls="kek",
                                           of=f"rom-{idx}"))
-            out["traces"].append(mk_trace("wrongkek-parse-" + tid, "parse", "wrongkek", observe_parse(sp, ver, data, k2), ref=ref, idx=idx, ver=ver, cls="kek",
-                                          of=f"parse-{idx}"))
+            pev = observe_parse(sp, ver, data, k2)
+            out["traces"].append(mk_trace("wrongkek-parse-" + tid, "parse", "wrongkek", pev, ref=slim(pev), idx=idx, ver=ver, cls="kek", of=f"parse-{idx}"))
     return out
 
 
@@ -938,6 +1080,8 @@ def soft_key(t, name):
     if name.startswith("parse:"):
         mode = "" if t["mode"] == "clean" else f"{t['mode']}/"
         return f"C04/parse/{vname(ver)}/{mode}field/{name[6:]}"
+    if name == "timestamp" and t.get("given", {}).get("tsc"):
+        return f"C04/header/timestamp/{time_label(t['given']['tsc'])}"
     return f"C04/{'section' if name in ('section_id', 'hmac_count') else 'header'}/{name}"
 
 
@@ -950,7 +1094,7 @@ def pool():
     global _pool
     if _pool is None:
         scratch()
-        _pool = ProcessPoolExecutor(max_workers=6, mp_context=mp.get_context("fork"))
+        _pool = ProcessPoolExecutor(max_workers=10, mp_context=mp.get_context("fork"))
     return _pool
 
 
@@ -976,10 +1120,10 @@ def validate(traces, heap="6g", timeout=1500, chunk=None):
     return validate_end(validate_start(traces, heap, timeout, chunk))
 
 
-def validate_start(traces, heap="6g", timeout=1500, chunk=None):
+def validate_start(traces, heap="6g", timeout=1500, chunk=None, parts=3):
     if not traces:
         return [], []
-    chunk = chunk or min(6000, max(300, -(-len(traces) // 3)))
+    chunk = chunk or min(6000, max(300, -(-len(traces) // parts)))
     ids = [t["id"] for t in traces]
     numbered = [dict(_strip(t), id=i) for i, t in enumerate(traces)]
     return ids, [submit(_tv_chunk, numbered[k:k + chunk], heap, timeout) for k in range(0, len(numbered), chunk)]
@@ -1036,7 +1180,8 @@ def canary(v):
     evs = src["ev"]
     load = next(e for e in evs if e["ev"] == "Cmd" and e["tag"] == 2)
     cert = ev_of(src, "ParseCertBlock")
-    given = {"ver": 1, "flags": 8, "pv": [1, 0, 0], "cv": [1, 0, 0], "build": [0, 1], "ts": [633744000 >> 16, 633744000 & 0xFFFF], "nonceCtr": [0, 0],
+    given = {"ver": 1, "flags": 8, "pv": [1, 0, 0], "cv": [1, 0, 0], "build": [0, 1],
+             "tsc": {"form": "naive", "off": 0, "days": 633744000 // 86400, "sod": 633744000 % 86400, "us": 0, "zone": 0}, "nonceCtr": [0, 0],
              "sigLen": 256, "chain": 1, "rootIdx": 0, "rkth": cert["rkth"], "nonce": evs[0]["nonce"], "keys": ev_of(src, "UnwrapKeyBlob")["keys"],
              "secs": [{"uid": [0, 0], "hmacReq": 1, "cmds": [
                  acmd("vercheck", f=0, n=0x16), acmd("vercheck", f=1, n=15263), acmd("erase", a=0, n=0x2800),
@@ -1055,6 +1200,32 @@ def canary(v):
     b5 = variant(bound, "canary-bound-hmacreq", lambda t: t["given"]["secs"][0].__setitem__("hmacReq", 2))
     b6 = variant(bound, "canary-bound-keys", lambda t: t["given"].__setitem__("keys", "00" * 16))
     b7 = variant(bound, "canary-bound-mem", lambda t: t["given"]["secs"][0]["cmds"][3].__setitem__("m", [1, 32]))     # the load was asked to go to the SD card
+    # time-stamp canary (the golden carries 2020-01-31 00:00:00 UTC): the same instant written with an offset is accepted; the same DIGITS with an
+    # offset are another instant (a builder that drops the zone information); a naive value in a process whose zone is not UTC is not asserted
+    def tsc(**kw):
+        return lambda t: t["given"].__setitem__("tsc", dict(t["given"]["tsc"], **kw))
+
+    t_good = [variant(bound, "canary-time-aware-same-instant", tsc(form="aware", off=330, sod=19800)),
+              variant(bound, "canary-time-aware-west", tsc(form="aware", off=-480, days=633744000 // 86400 - 1, sod=57600, zone=330)),
+              variant(bound, "canary-time-microseconds", tsc(us=999999))]
+    t_bad = [variant(bound, "canary-time-zone-dropped", tsc(form="aware", off=330)),
+             variant(bound, "canary-time-converted-with-the-local-zone", tsc(form="aware", off=-480, days=633744000 // 86400 - 1, sod=57600 + 60)),
+             variant(bound, "canary-time-naive-elsewhere", tsc(zone=330))]
+    # truncation canary: goldens of the reference tool (SB 2.0 unsigned / signed, SB 2.1) cut at EVERY structural boundary, and extended by one
+    # block: the automaton alone must refuse every variant; and the clause that no boundary was left out (CutsOk) must tell a complete list
+    # of cuts from one with a boundary missing
+    cut_tr = []
+    for fn in ("expected_sb2_0_simple_unsigned.sb2", "expected_sb2_0_advanced_signed2048.sb2", "expected_sb2_1_advanced_signed2048.sb2"):
+        data = open(os.path.join(ANCHORS, fn), "rb").read()
+        walk = rom.run(data, ANCHOR_KEK, max_payload_log=0)
+        for c in sorted(16 * b for b in bounds_of(walk) if 16 * b < len(data)):
+            cut_tr.append(mk_trace(f"canary-cut-{fn[13:-4]}@{c}", "anchor", "tamper", rom.run(data[:c], ANCHOR_KEK, max_payload_log=0), ver="21"))
+        cut_tr.append(mk_trace(f"canary-ext-{fn[13:-4]}", "anchor", "tamper", rom.run(data + bytes(16), ANCHOR_KEK, max_payload_log=0), ver="21"))
+    if len(cut_tr) < 40:
+        raise Machinery("canary: the goldens have fewer structural boundaries than expected")
+    all_cuts = sorted(16 * b for b in bounds_of(evs))
+    c_good = variant(bound, "canary-cuts-complete", lambda t: t["given"].__setitem__("cuts", all_cuts[:-1] + [7, 100]))       # (the last boundary is the end of the file)
+    c_bad = variant(bound, "canary-cuts-one-boundary-missing", lambda t: t["given"].__setitem__("cuts", all_cuts[:5] + all_cuts[6:-1]))
     # history canary: the golden as two exports of one object with queries in between; then the same with a header field that accumulated,
     # with a mutator the second file does not reflect, with a changed section id the second file does not carry
     marked = with_markers(evs)
@@ -1078,7 +1249,9 @@ def canary(v):
     pr = mk_trace("canary-parse-raised-clean", "parse", "clean", [{"ev": "ParseOutcome", "outcome": "raised", "exc": "X"}], ref=ref, ver="21")
     pt = mk_trace("canary-parse-raised-tamper", "parse", "tamper", [{"ev": "ParseOutcome", "outcome": "raised", "exc": "X"}], ref=ref, ver="21")
     pd = variant(pb, "canary-parse-tamper-different", lambda t: t.__setitem__("mode", "tamper"))
-    allt = tr + bad + [bound, b2, b3, b4, b5, b6, b7, pg, pb, pr, pt, pd, hg, h2, h3, h4, h5]
+    # a truncated file parsed "successfully" into fewer sections
+    pf = mk_trace("canary-parse-truncated-fewer-sections", "parse", "tamper", [pev[0], pev[1], {"ev": "PEnd", "nsec": 0}], ref=ref, ver="21")
+    allt = tr + bad + [bound, b2, b3, b4, b5, b6, b7, pg, pb, pr, pt, pd, pf, hg, h2, h3, h4, h5] + t_good + t_bad + cut_tr + [c_good, c_bad]
     if hg["ev"][second]["ev"] != "HExport" or hg["ev"][second + 1]["ev"] != "ParseHeader":
         raise Machinery("canary: history trace not laid out as expected")
     rej, soft = validate(allt)
@@ -1087,18 +1260,25 @@ def canary(v):
     if (soft.get("canary-bound-cv") != ["component_version"] or soft.get("canary-bound-hmacreq") != ["hmac_count"] or "canary-image-blocks" not in soft
             or soft.get("canary-hist-stale-id") != ["section_id@2"]):
         raise Machinery(f"canary failed: soft clauses not reported as expected: {soft}")
+    if any(soft.get(t["id"]) != ["timestamp"] for t in t_bad) or any(t["id"] in soft for t in t_good):
+        raise Machinery(f"canary failed: time-stamp clause not decided as expected: { {t['id']: soft.get(t['id']) for t in t_good + t_bad} }")
+    if soft.get("canary-cuts-one-boundary-missing") != ["cuts"] or "canary-cuts-complete" in soft:
+        raise Machinery(f"canary failed: clause CutsOk not decided as expected: {soft.get('canary-cuts-complete')} {soft.get('canary-cuts-one-boundary-missing')}")
     rej = dict(rej)
-    for i in ("canary-bound-cv", "canary-bound-hmacreq", "canary-image-blocks", "canary-hist-stale-id"):
-        rej.setdefault(i, (0, 0, "soft:" + "+".join(soft[i])))
-    must_accept = set(good_ids) | {"canary-bound-good", "canary-parse-good", "canary-parse-raised-tamper", "canary-hist-good"}
+    for i in ["canary-bound-cv", "canary-bound-hmacreq", "canary-image-blocks", "canary-hist-stale-id", "canary-cuts-one-boundary-missing"] + [t["id"] for t in t_bad + cut_tr]:
+        if i in soft:
+            rej.setdefault(i, (0, 0, "soft:" + "+".join(soft[i])))
+    must_accept = set(good_ids) | {"canary-bound-good", "canary-parse-good", "canary-parse-raised-tamper", "canary-hist-good", "canary-cuts-complete"} | {t["id"] for t in t_good}
     must_reject = {t["id"] for t in bad} | {"canary-bound-addr", "canary-bound-data", "canary-bound-cv", "canary-bound-hmacreq", "canary-bound-keys", "canary-parse-cmd",
                                             "canary-parse-raised-clean", "canary-parse-tamper-different", "canary-bound-mem", "canary-hist-accumulated",
-                                            "canary-hist-stale-content", "canary-hist-stale-id", "canary-hist-export-inside-file"}
+                                            "canary-hist-stale-content", "canary-hist-stale-id", "canary-hist-export-inside-file",
+                                            "canary-parse-truncated-fewer-sections", "canary-cuts-one-boundary-missing"} | {t["id"] for t in t_bad + cut_tr}
     if (must_accept & set(rej)) or (must_reject - set(rej)):
         raise Machinery(f"canary failed: wrongly rejected {[(i, rej[i]) for i in sorted(must_accept & set(rej))]}, "
                         f"wrongly accepted {sorted(must_reject - set(rej))}")
     v.extra["canary"] = (f"{len(good_ids)} golden files of the reference tool (SB 2.0 signed / unsigned, SB 2.1 with and without SHA-256) accepted by the "
-                         "automaton; rejected as required: " + ", ".join(f"{i[7:]}@{rej[i][2]}" for i in sorted(must_reject)))
+                         "automaton; rejected as required: " + ", ".join(f"{i[7:]}@{rej[i][2]}" for i in sorted(must_reject) if not i.startswith(("canary-cut-", "canary-ext-")))
+                         + f"; {len(cut_tr)} truncated / extended goldens (cut at every structural boundary) refused by the automaton")
     v.traces(len(good_ids))
     v.count(len(allt))
 
@@ -1111,10 +1291,10 @@ MC_ACTIONS = ("DoParseHeader", "DoUnwrap", "DoHdrMac20", "DoHdrMac21", "DoCert21
 CONFIGS = {"quick": ["", "_3sec", "_1sec"], "thorough": ["", "_3sec", "_1sec", "_t0", "_t1", "_t2"]}
 
 
-def mc_all(tier):
-    """The MC runs (lemmas over every shape of each constant set) - in a child process, the Python side only needs them at the end."""
+def mc_all(names):
+    """The MC runs (lemmas over every shape of each constant set) - in child processes, the Python side only needs them at the end."""
     out = []
-    for name in CONFIGS[tier]:
+    for name in names:
         big = name in ("_t0", "_t1", "_t2")
         r = tlc.mc("C04", "Sb2RomMC", f"Sb2RomMC{name}.cfg", workers=16 if big else 4, heap="24g" if big else "6g", timeout=2400 if big else 500,
                    require_actions=MC_ACTIONS)
@@ -1170,6 +1350,46 @@ def hist_gen(tier):
     return hists, res
 
 
+def time_cases(tier):
+    """MC + GEN of the time-stamp case space (Sb2TimeMC): lemmas over every case, every case emitted. -> (cases, TlcResult)"""
+    res = tlc.mc("C04", "Sb2TimeMC", "Sb2TimeMC.cfg" if tier == "quick" else "Sb2TimeMC_t.cfg", workers=1, coverage=False, heap="2g", timeout=600, deadlock=False)
+    cases = res.json_prints()
+    if len(cases) != res.distinct or len(cases) < 300:
+        raise Machinery(f"Sb2TimeMC: {len(cases)} cases emitted, {res.distinct} initial states")
+    res.out = res.out[-3000:]
+    return cases, res
+
+
+def time_files(cases, first_idx, plain_tour, residue_tour, ks_ids):
+    """One small file per time-stamp case; version / SHA flag / chain rotate over the files (deterministic: the cases are sorted)."""
+    signed = list(CHAIN_TAB)
+    out = []
+    for i, c in enumerate(sorted(cases, key=lambda c: json.dumps(c, sort_keys=True))):
+        if set(c) != {"form", "off", "days", "sod", "us", "zone"} or c["form"] not in ("naive", "aware") or (c["form"] == "naive" and (c["off"] or c["zone"])):
+            raise Machinery(f"time-stamp case the driver does not know: {c}")
+        ver, sha = LANE_VERSIONS[i % len(LANE_VERSIONS)]
+        shape = {"ver": ver, "sha": sha, "chain": "none" if ver == "20u" else signed[(i // len(LANE_VERSIONS)) % 3], "secs": [{"hm": 1, "cmds": [0]}]}
+        g = concretise(shape, first_idx + i, rng(PROP, "timefile", i), plain_tour, residue_tour, ks_ids, [0])
+        g["tsc"] = c
+        g["time"] = time_label(c)
+        out.append(g)
+    return out
+
+
+CUT_SECTION = {"hm": 2, "cmds": [0, 1]}
+
+
+def cut_files(first_idx, plain_tour, residue_tour, ks_ids, quick):
+    """The files of the cut lane: every version (SB 2.0 unsigned / signed, SB 2.1 without / with SHA-256) x 1..3 sections - fixed shapes, seeded values."""
+    signed = list(CHAIN_TAB)
+    out = []
+    for i, (ver, sha) in enumerate([("20u", False), ("20s", False), ("21", False), ("21", True)]):
+        for n in (1, 2, 3):
+            shape = {"ver": ver, "sha": sha, "chain": "none" if ver == "20u" else signed[(i + n) % (3 if quick else len(signed))], "secs": [dict(CUT_SECTION) for _ in range(n)]}
+            out.append(concretise(shape, first_idx + len(out), rng(PROP, "cutfile", ver, sha, n), plain_tour, residue_tour, ks_ids, [0]))
+    return out
+
+
 def config_cases():
     """MC + GEN of the configuration statement space (Sb2Config): lemmas over every case, every case emitted with its expectation."""
     res = tlc.mc("C04", "Sb2Config", "Sb2Config.cfg", workers=1, coverage=False, heap="2g", timeout=300, deadlock=False)
@@ -1191,7 +1411,9 @@ def run(tier):
     quick = tier == "quick"
 
     # ---- MC + GEN (background) and canary
-    mc_future = submit(mc_all, tier)
+    # (the small constant sets side by side, the big ones of the thorough tier one after the other: each of them takes all cores)
+    small = [n for n in CONFIGS[tier] if n not in ("_t0", "_t1", "_t2")]
+    mc_future = [submit(mc_all, [n]) for n in small] + [submit(mc_all, [n for n in CONFIGS[tier] if n not in small])]
     try:
         rc = _run(tier, sp, v, r, quick, mc_future)
     except BaseException:
@@ -1206,6 +1428,7 @@ def _run(tier, sp, v, r, quick, mc_future):
     ops_future = submit(operand_cases, tier)
     hist_future = submit(hist_gen, tier)
     cfg_future = submit(config_cases)
+    time_future = submit(time_cases, tier)
     canary(v)
     say(f"[C04] canary: {v.extra['canary'][:200]}... ({v.timer.s()}s)")
     shapes, gen_counts = gen_future.result()
@@ -1240,7 +1463,8 @@ def _run(tier, sp, v, r, quick, mc_future):
     stride = max(1, len(chosen) // n_tamper_files)
     for i, s in enumerate(chosen):
         g = concretise(s, i, rng(PROP, "file", i), plain_tour, residue_tour, sp.ks_ids, [1, 3, 6] if quick else [1, 3, 6, 20, 60])
-        jobs.append({"g": g, "tamper": (2 if quick else 3) if (i % stride == 0) else 0})
+        tam = (2 if quick else 3) if (i % stride == 0) else 0
+        jobs.append({"g": g, "tamper": tam, "cuts": tam})
     # exhaustive bit flips over one small file per version (strided in the quick tier)
     for ver in ("21", "20s", "20u"):
         s = {"ver": ver, "sha": ver == "21", "chain": "none" if ver == "20u" else "k0", "secs": [{"hm": 2, "cmds": [0, 1, 0]}]}
@@ -1267,6 +1491,18 @@ def _run(tier, sp, v, r, quick, mc_future):
         raise Machinery("configuration lane: not every case emitted by TLC was placed into a configuration")
     say(f"[C04] configuration lane: {len(cfg_cs)} statement cases (kind x memory-option class x data source) enumerated by TLC, "
         f"placed into {len(jobs) - n_cfg0} configurations ({v.timer.s()}s)")
+    # time lane: a file for every time-stamp case of Sb2TimeMC in every run
+    t_cases, time_mc = time_future.result()
+    n_time0 = len(jobs)
+    for g in time_files(t_cases, len(jobs), plain_tour, residue_tour, sp.ks_ids):
+        jobs.append({"g": g, "tamper": 0})
+    say(f"[C04] time lane: {len(t_cases)} time-stamp cases (naive / aware x UTC offset x wall-clock digits x microseconds x local zone) enumerated by TLC, "
+        f"one file each ({v.timer.s()}s)")
+    # cut lane: fixed small files of every version x 1..3 sections, cut at every structural boundary and inside every part, and extended
+    n_cut0 = len(jobs)
+    for g in cut_files(len(jobs), plain_tour, residue_tour, sp.ks_ids, quick):
+        jobs.append({"g": g, "tamper": 0, "cuts": "all"})
+    n_lanes_end = len(jobs)
     # history lane: every selected history of Sb2Hist is replayed on one live object
     hists, hist_mc = hist_future.result()
     hsel = hist_select(hists, quick)
@@ -1287,9 +1523,12 @@ def _run(tier, sp, v, r, quick, mc_future):
         f"{sum(res['len'] for res in results)} bytes), {len(traces)} observations (executor walks, parse() runs, tampered / wrong-KEK variants, histories) ({v.timer.s()}s)")
 
     # ---- TV: one batch for the clean traces (the histories next to it), one for the tampered / wrong-KEK ones
+    # (all batches are started at once; which tampered traces count is decided afterwards, when the verdicts on the clean traces are known)
     hist_tr = [t for t in traces if t["kind"] == "hist"]
     clean = [t for t in traces if t["mode"] == "clean" and t["kind"] != "hist"]
-    h_clean = validate_start(clean)
+    dirty = [t for t in traces if t["mode"] != "clean"]
+    h_clean = validate_start(clean, parts=4)
+    h_dirty = validate_start(dirty, parts=4)
     h_hist = validate_start(hist_tr)
     rej_clean, soft_clean = validate_end(h_clean)
     say(f"[C04] {len(clean)} clean traces validated ({v.timer.s()}s)")
@@ -1297,7 +1536,7 @@ def _run(tier, sp, v, r, quick, mc_future):
     say(f"[C04] {len(hist_tr)} histories validated ({v.timer.s()}s)")
     # configuration lane: a rejected configuration is taken apart - every statement is built on its own, so that every failing case is
     # reported under its own key (and a known finding cannot hide another statement of the same file)
-    cfg_rej = [j["g"] for j in jobs[n_cfg0:n_hist0] if f"rom-{j['g']['idx']}" in rej_clean]
+    cfg_rej = [j["g"] for j in jobs[n_cfg0:n_time0] if f"rom-{j['g']['idx']}" in rej_clean]
     superseded = set()
     if cfg_rej:
         iso_jobs, nxt = [], len(jobs)
@@ -1318,8 +1557,11 @@ def _run(tier, sp, v, r, quick, mc_future):
         v.count(len(iso_tr))
         say(f"[C04] configuration lane: {len(cfg_rej)} rejected configurations taken apart into {len(iso_jobs)} single-statement configurations, "
             f"{sum(1 for j in iso_jobs if 'rom-%d' % j['g']['idx'] in rej_iso)} of them rejected ({v.timer.s()}s)")
-    usable = [t for t in traces if t["mode"] != "clean" and t["of"] not in rej_clean]   # a file whose clean trace is a hard finding is not tampered with
-    rej_dirty, soft_dirty = validate(usable)
+    usable = [t for t in dirty if t["of"] not in rej_clean]   # a file whose clean trace is a hard finding is not tampered with
+    rej_dirty, soft_dirty = validate_end(h_dirty)
+    keep = {t["id"] for t in usable}
+    rej_dirty = {k: x for k, x in rej_dirty.items() if k in keep}
+    soft_dirty = {k: x for k, x in soft_dirty.items() if k in keep}
     v.traces(len(clean) + len(usable) + len(hist_tr))
     say(f"[C04] {len(usable)} tampered / wrong-KEK traces validated ({v.timer.s()}s)")
 
@@ -1340,9 +1582,11 @@ def _run(tier, sp, v, r, quick, mc_future):
             v.violation(key_of(t, matched, ver, by_idx[idx]), f"{vname(ver)} file #{idx}: {who} trace rejected at event #{matched + 1} ({evname}): {json.dumps(short(ev))[:500]}",
                         {"g": by_idx[idx], "trace": _strip(t), "rejected_at": matched})
         for name in soft_clean.get(t["id"], []):
+            if name == "cuts":
+                raise Machinery(f"cut lane: file #{idx} was not cut at every structural boundary TLC derives from its walk (clause CutsOk): cuts {t['given'].get('cuts')}")
             if t["kind"] == "rom":
                 g = t["given"]
-                detail = {"clause": name, "given": {k: g[k] for k in ("ver", "flags", "pv", "cv", "build", "ts", "nonce")},
+                detail = {"clause": name, "given": {k: g[k] for k in ("ver", "flags", "pv", "cv", "build", "tsc", "nonce")},
                           "secs_given": [{"uid": s["uid"], "hmacReq": s["hmacReq"]} for s in g["secs"]],
                           "header_in_file": {k: x for k, x in t["ev"][0].items() if k in ("minor", "flags", "pv", "cv", "build", "ts", "nonce", "fileBlocks", "imageBlocks", "firstTag")},
                           "sections_in_file": [{"uid": e["uid"], "hmacCount": e["hmacCount"], "count": e["count"]} for e in t["ev"] if e["ev"] == "SectionTag"]}
@@ -1386,8 +1630,11 @@ def _run(tier, sp, v, r, quick, mc_future):
         idx, ver, cls = t["idx"], t["ver"], t.get("cls", "?")
         st = tamper_stats.setdefault(f"{t['kind']}/{t['mode']}/{cls}", {"n": 0, "rejected": 0, "raised": 0})
         st["n"] += 1
-        if t["kind"] == "rom":
-            if t["id"] in rej_dirty:
+        if t["kind"] in ("rom", "anchor"):
+            # refused = the trace is not a behaviour (a HARD clause fails), or a clause about the header that held for the clean file is FALSE now
+            # (image_blocks / first_boot_tag_block are evaluated as soft clauses so that the walk goes on: for a cut or extended file they are
+            # the clause "the header describes the bytes that are there")
+            if t["id"] in rej_dirty or [n for n in soft_dirty.get(t["id"], []) if n not in soft_clean.get(t["of"], [])]:
                 st["rejected"] += 1
             elif cls != "dontcare_filler":
                 holes.append(t["id"])
@@ -1413,7 +1660,7 @@ def _run(tier, sp, v, r, quick, mc_future):
         "anchors/C04: 14 golden files of the reference tool (elftosb) that the automaton must accept at every start",
         "nothing from spsdk.crypto / spsdk.sbfile on the deciding side; TLC decides every trace",
     ]
-    v.extra["checker_cmd"] = "tlc2.TLC -config Sb2RomMC*.cfg Sb2RomMC.tla (MC), -config Sb2RomGen*.cfg (GEN), -config Sb2RomTrace.cfg Sb2RomTrace.tla (TV); -config Sb2OperandsMC.cfg Sb2OperandsMC.tla, -config Sb2Config.cfg Sb2Config.tla, -config Sb2HistGen.cfg / Sb2HistRefute.cfg Sb2Hist.tla (MC + GEN of the lanes)"
+    v.extra["checker_cmd"] = "tlc2.TLC -config Sb2RomMC*.cfg Sb2RomMC.tla (MC), -config Sb2RomGen*.cfg (GEN), -config Sb2RomTrace.cfg Sb2RomTrace.tla (TV); -config Sb2OperandsMC.cfg Sb2OperandsMC.tla, -config Sb2Config.cfg Sb2Config.tla, -config Sb2HistGen.cfg / Sb2HistRefute.cfg Sb2Hist.tla, -config Sb2TimeMC.cfg Sb2TimeMC.tla (MC + GEN of the lanes)"
     v.extra["tamper"] = tamper_stats
     v.extra["tamper_rejected"] = sum(s["rejected"] for k, s in tamper_stats.items() if k.startswith("rom/"))
     v.extra["files"] = {"built": n_built, "bytes": sum(res["len"] for res in results)}
@@ -1444,8 +1691,8 @@ def _run(tier, sp, v, r, quick, mc_future):
             lane_stats["decoded_as_given"] += 1 if ok else 0
     v.extra["operand_lane"] = lane_stats
     v.add_mc(op_mc)
-    cfg_stats = {"cases": len(cfg_cs), "configurations": n_hist0 - n_cfg0, "decoded_as_given": 0, "by_class": {}}
-    for j in jobs[n_cfg0:n_hist0]:
+    cfg_stats = {"cases": len(cfg_cs), "configurations": n_time0 - n_cfg0, "decoded_as_given": 0, "by_class": {}}
+    for j in jobs[n_cfg0:n_time0]:
         ok = f"rom-{j['g']['idx']}" not in rej_clean and res_by_idx[j["g"]["idx"]]["build"] == "ok"
         for s_ in j["g"]["secs"]:
             for c in s_["cmds"]:
@@ -1456,15 +1703,42 @@ def _run(tier, sp, v, r, quick, mc_future):
                 cfg_stats["decoded_as_given"] += 1 if ok else 0
     v.extra["configuration_lane"] = cfg_stats
     v.add_mc(cfg_mc)
+    time_stats = {"cases": len(t_cases), "header_carries_the_instant": 0, "by_class": {}}
+    for j in jobs[n_time0:n_cut0]:
+        i_ = j["g"]["idx"]
+        ok = f"rom-{i_}" not in rej_clean and res_by_idx[i_]["build"] == "ok" and "timestamp" not in soft_clean.get(f"rom-{i_}", [])
+        c = j["g"]["tsc"]
+        cs = time_stats["by_class"].setdefault(c["form"] + ("" if c["form"] == "naive" else "/utc" if c["off"] == 0 else "/east" if c["off"] > 0 else "/west")
+                                               + ("/us" if c["us"] else "") + ("/local-zone" if c["zone"] else ""), [0, 0])
+        cs[0] += 1
+        cs[1] += 1 if ok else 0
+        time_stats["header_carries_the_instant"] += 1 if ok else 0
+    v.extra["time_lane"] = time_stats
+    v.add_mc(time_mc)
+    cut_stats = {"files": n_lanes_end - n_cut0, "cut_positions": 0, "extensions": 0, "refused_by_the_automaton": 0, "parse_raised": 0, "parse_returned_the_reference_content": 0}
+    cut_ids = {j["g"]["idx"] for j in jobs[n_cut0:n_lanes_end]}
+    for t in usable:
+        if t["idx"] in cut_ids and t.get("cls", "").split("/")[0] in ("truncated", "extended"):
+            if t["kind"] == "anchor":
+                cut_stats["cut_positions" if t["cls"].startswith("truncated") else "extensions"] += 1
+                cut_stats["refused_by_the_automaton"] += 1      # (a variant that is not refused has raised Machinery above)
+            elif t["ev"][0]["outcome"] == "raised":
+                cut_stats["parse_raised"] += 1
+            elif t["id"] not in rej_dirty:
+                cut_stats["parse_returned_the_reference_content"] += 1
+    v.extra["cut_lane"] = cut_stats
+    # (only a statement about the driver when every file of the lane was built and accepted: a file the automaton refuses is a finding, reported above)
+    if cut_stats["cut_positions"] < 100 and not any(f"rom-{i}" in rej_clean for i in cut_ids):
+        raise Machinery(f"cut lane: only {cut_stats['cut_positions']} cut positions were explored")
     v.add_mc(hist_mc)
-    mcs = mc_future.result()
+    mcs = [res for f in mc_future for res in f.result()]
     for res, n in zip(mcs, gen_counts):
         v.add_mc(res)
         # (with several workers TLC's per-action counters may count a state twice; deadlock freedom is what proves that EVERY shape is accepted)
         if res.coverage.get("DoAccept", (0, 0))[1] < n:
             raise Machinery(f"MC accepted {res.coverage.get('DoAccept')} shapes but GEN enumerated {n} for the same constants")
     say(f"[C04] MC: {sum(x.distinct for x in mcs)} states in {len(mcs)} runs: every enumerated shape is walked to Accepted, lemmas Complete / Sound / "
-        f"Tamper / FreshChunks hold, no stuck state, every action fired ({v.timer.s()}s)")
+        f"Tamper (corrupted block, truncation, extension) / StreamStops / BoundsReach / FreshChunks hold, no stuck state, every action fired ({v.timer.s()}s)")
     v.cov["rule"] = ("TLC enumerates every layout shape (version x SHA flag x certificate chain x 1..2 sections x HMAC-table request x command sequences "
                      "by payload blocks) and proves the automaton accepts each ideal layout with full coverage; a seeded subset of the shapes "
                      "(every version/chain/section-count/HMAC-request combination at least once) is concretised with seeded field values (tour over all "
@@ -1479,7 +1753,16 @@ def _run(tier, sp, v, r, quick, mc_future):
                      "TLC enumerates the histories of one live builder object (Sb2Hist: str / update / add section / append command / replace command / set "
                      "section id / export, up to 4 calls quick, 5 thorough, per version and initial content), each selected history is replayed on a real "
                      "object and EVERY export in it is walked by the executor, bound to the content the object held at that moment (state of the trace "
-                     "spec); evaluations = traces handed to TLC; non-trivial = clean trace accepted to the end, distinct by "
+                     "spec); TIME LANE: TLC enumerates the time-stamp case space (Sb2TimeMC: naive / aware x UTC offset [0, whole, half and quarter hours east "
+                     "and west, +14 h, -12 h, +-23:59] x wall-clock digits [first seconds of 2000-01-01 UTC for every offset, leap day, 2^31 / 2^32 seconds since "
+                     "1970 and since 2000, year 2273] x microseconds [0, 1, 500000, 999999] x local zone of the building process [UTC, +05:30, -08:00; aware "
+                     "values only]; one dimension against the others, thorough: the product) and a file is built for EVERY case in every run - the clause "
+                     "HeaderCarries (the header carries the supplied INSTANT in whole seconds since 2000-01-01 UTC) is evaluated by TLC; CUT LANE / corruption "
+                     "classes TRUNCATION and EXTENSION: 12 fixed files (SB 2.0 unsigned / signed, SB 2.1 without / with SHA-256, 1..3 sections) are cut at EVERY "
+                     "structural boundary of their layout (Sb2Rom!BoundsOf over the events TLC consumed - the trace form checks that none was left out), once "
+                     "block-aligned and once unaligned inside every part, and extended by a byte / a block / a copy of the last section / zeros; the files of "
+                     "the tamper sample get a seeded subset; each variant must be refused by the automaton (else machinery failure) and parse() must raise or "
+                     "return the reference content; evaluations = traces handed to TLC; non-trivial = clean trace accepted to the end, distinct by "
                      "SHA-256 of the exported file and observer")
     v.assumptions += [
         "nonce counter word + number of blocks < 2^32 (counter wrap-around in the ROM is not documented)",
@@ -1492,7 +1775,12 @@ def _run(tier, sp, v, r, quick, mc_future):
         "certificate chains are RSA (2048/3072/4096, 1..3 certificates, all keys of one chain of equal size); max_section_mac_count = sum of HMAC-table sizes "
         "(+1 for the certificate section of SB 2.0) as produced by the reference tool (golden anchors)",
         "any exception of parse() counts as 'raises an error'; the second observer is compared with what the executor decoded from the same bytes",
-        "time zone of the run is UTC; header timestamp = whole seconds since 2000-01-01 < 2^31",
+        "time stamp: an AWARE datetime names an instant (whatever the local zone of the process); a NAIVE datetime is asserted only in a process whose local "
+        "zone is UTC (the run sets TZ=UTC; what a naive value means elsewhere is not settled by the documentation); instants before 2000-01-01 UTC are outside "
+        "the domain (unsigned field); the sub-second part of the header is 0 or the supplied microseconds (the reference tool writes whole seconds); dates up "
+        "to 2273 (limb arithmetic of Sb2Time); local zones of the time lane are fixed offsets (no daylight-saving rules)",
+        "truncation / extension: the automaton knows the length of the file (clause: the header describes the bytes that are there); a loader that reads a "
+        "stream would not notice appended bytes - for extended files the asserted part is parse(): an error or the reference content",
         "a tampered file accepted by the automaton is a hole of this model (machinery failure), not a statement about SPSDK",
         "configuration lane: the configuration dictionary is handed to load_from_config as the BD parser / a YAML file produces it (the BD grammar itself is C19's); "
         "memory names and their ids are those of the BD language / boot ROM (sdcard = @288 ...), the name `internal` and a memory option on fill are not asserted; "
